@@ -773,7 +773,7 @@ class GroupedSite(Site):
         # read it into c2JWps for each site before calling Site.change_charge() deleting it
         if charges == 'same':
             # already same charges, so could/should have same `charge_to_JW_parity`
-            if all(p is not None and all(p == c2JWps[0]) for p in c2JWps):
+            if all(p is not None and np.array_equal(p, c2JWps[0]) for p in c2JWps):
                 self.charge_to_JW_parity = c2JWps[0]
         elif charges == 'independent':
             if all(p is not None for p in c2JWps):
